@@ -2854,7 +2854,10 @@ func (r *Runtime) ForOf(iterable Value, step func(curValue Value) (continueItera
 				continueIteration = step(value)
 			})
 			if ex != nil {
-				iter.returnIter()
+				// IteratorClose with a throw completion: what return() throws is ignored, ex is what the caller sees
+				_ = r.vm.try(func() {
+					iter.returnIter()
+				})
 				panic(ex)
 			}
 			if !continueIteration {
